@@ -72,11 +72,11 @@ def actions(weights, fail_heavy=False, bodies=False):
             return (b'\r\n'.join(keep) + b'\r\n').hex() if keep else ''
         blocks = st.one_of(st.just(''), c20.structured_case().map(_block))
         enq = st.fixed_dictionaries({'n': st.integers(1, 8), 'many': st.just(True), 'sender': st.sampled_from([True, True, True, False]),
-                                     'body': body, 'block': blocks, 'dup': st.sampled_from([False, False, False, False, True])}
+                                     'body': body, 'block': blocks, 'dup': st.sampled_from([False, False, False, False, True, 2])}
                                     ).map(lambda d: ['enqueue', d])
     else:
         enq = st.fixed_dictionaries({'n': st.integers(1, 4), 'sender': st.sampled_from([True, True, True, False]),
-                                     'body': st.just(''), 'dup': st.sampled_from([False, False, False, False, True])}
+                                     'body': st.just(''), 'dup': st.sampled_from([False, False, False, False, True, 2])}
                                     ).map(lambda d: ['enqueue', d])
     rel = st.tuples(st.integers(0, 7), _outcomes(fail_heavy)).map(lambda t: ['release', t[0], t[1]])
     choices = {
@@ -100,7 +100,7 @@ def actions(weights, fail_heavy=False, bodies=False):
 
 def history(cfg_strategy, weights, fail_heavy=False, bodies=False):
     first = st.fixed_dictionaries({'n': st.integers(1, 4), 'sender': st.sampled_from([True, True, False]),
-                                   'body': st.just(''), 'dup': st.sampled_from([False, False, False, False, True])}
+                                   'body': st.just(''), 'dup': st.sampled_from([False, False, False, False, True, 2])}
                                   ).map(lambda d: ['enqueue', d])
     return st.tuples(cfg_strategy, first, actions(weights, fail_heavy, bodies)).map(lambda t: (t[0], [t[1]] + t[2]))
 
@@ -337,6 +337,22 @@ def flush_busy_history():
                                        st.just(['announce', 0]), st.just(['tick']), st.just(['answer', OK])), max_size=10))
         return cfg, acts + tail
     return strat()
+
+
+def exhausted_dup_history():
+    """Every recipient fails transiently in a per-recipient result and the backoff gives up at once or after one retry, for
+    recipient lists that name one mailbox twice (first and last / the first two)."""
+    cases = []
+    for n in (3, 4):
+        for dup in (True, 2):
+            for shape in ('map', 'seq'):
+                for replies in ([0], [0, 1], [1, 0, 0], [0, 0, 1]):
+                    for backoff in ([], [0]):
+                        spec = {'shape': shape, 'per': ['temp'], 'replies': replies}
+                        cases.append(({'backend': 'dict', 'backoff': backoff},
+                                      [['enqueue', {'n': n, 'sender': True, 'body': '', 'dup': dup}], ['answer', spec], ['storage'],
+                                       ['tick'], ['answer', spec], ['storage']]))
+    return st.sampled_from(cases)
 
 
 def flush_blocked_spawn_history():
